@@ -465,3 +465,61 @@ End Store.
 Arguments store_get {K}.
 Arguments store_add {K}.
 Arguments store_adds {K}.
+
+(* ------------------------------------------------------------------ the hand-over to the worker processes *)
+(* mapproxy/seed/seeder.py TileWorkerPool.process / stop and TileWorker.work_loop over the bounded tiles_queue.
+   T = type of a tile list.  The queue is FIFO; an item is Some tiles or None (the shutdown sentinel). *)
+Section PoolModel.
+  Variable T : Type.
+
+  (* what one queue.put(tiles, timeout=5) attempt does: accepted, or Queue.Full with "some worker is alive" *)
+  Inductive put_outcome := PutOk | PutFull (alive : bool).
+  Inductive proc_result := Handed | Interrupted | Retrying.
+
+  (* TileWorkerPool.process (not dry_run): retry until the queue takes the list; give up only when no worker is alive *)
+  Fixpoint pool_process (env : list put_outcome) (q : list (option T)) (tiles : T) : proc_result * list (option T) :=
+    match env with
+    | [] => (Retrying, q)
+    | PutOk :: _ => (Handed, q ++ [Some tiles])
+    | PutFull true :: env' => pool_process env' q tiles
+    | PutFull false :: _ => (Interrupted, q)
+    end.
+
+  (* a worker: waiting for the next item, working on a list, or gone (it took a sentinel) *)
+  Inductive wstat := WIdle | WBusy (t : T) | WExited.
+  Record pool := mkPool { pq : list (option T); pw : list wstat; pdone : list T }.
+
+  Definition set_nth {A} (l : list A) (i : nat) (a : A) : list A := firstn i l ++ a :: skipn (S i) l.
+
+  (* one step of worker i: take the head of the queue when idle, finish the list it works on when busy *)
+  Definition worker_step (p : pool) (i : nat) : pool :=
+    match nth_error (pw p) i with
+    | Some WIdle =>
+      match pq p with
+      | [] => p                                              (* blocks in queue.get() *)
+      | Some t :: q' => mkPool q' (set_nth (pw p) i (WBusy t)) (pdone p)
+      | None :: q' => mkPool q' (set_nth (pw p) i WExited) (pdone p)
+      end
+    | Some (WBusy t) => mkPool (pq p) (set_nth (pw p) i WIdle) (pdone p ++ [t])
+    | _ => p
+    end.
+
+  Definition run_workers (p : pool) (sched : list nat) : pool := fold_left worker_step sched p.
+
+  (* stop(force=False): one sentinel per worker that is alive (then join) *)
+  Definition alive (w : wstat) : bool := match w with WExited => false | _ => true end.
+  Definition pool_stop (p : pool) : pool :=
+    mkPool (pq p ++ repeat None (length (filter alive (pw p)))) (pw p) (pdone p).
+End PoolModel.
+Arguments WIdle {T}.
+Arguments WBusy {T}.
+Arguments WExited {T}.
+Arguments mkPool {T}.
+Arguments pq {T}.
+Arguments pw {T}.
+Arguments pdone {T}.
+Arguments pool_process {T}.
+Arguments worker_step {T}.
+Arguments run_workers {T}.
+Arguments alive {T}.
+Arguments pool_stop {T}.
